@@ -237,6 +237,13 @@ func execRoundtrip(a []string) Result {
 			}
 			blk = src.Root()
 			id = cw.idOf[blk.Link().String()]
+		case 3: // the bytes of the previous attachment again, under another codec: another link, another block
+			data := []byte{0x18, byte(100 + k - 1)}
+			if k == 0 {
+				data = []byte{0x18, 0x63}
+			}
+			h, _ := mh.Sum(data, mh.SHA2_256, -1)
+			blk = block.NewBlock(cidlink.Link{Cid: cid.NewCidV1(0x55, h)}, data)
 		default:
 			blk = rawCborBlock([]byte{0x18, byte(100 + k)})
 		}
